@@ -585,6 +585,8 @@ func main() {
 			if fn, ok := m.(*ssa.Function); ok && strings.HasPrefix(name, *rootPrefix) {
 				names = append(names, name)
 				enqueue(fn)
+			} else if ok && strings.HasPrefix(name, "vStub") {
+				enqueue(fn) // override bodies named by //verif:opts override=
 			}
 		}
 		sort.Strings(names)
